@@ -348,6 +348,18 @@ func TestC03(t *testing.T) {
 					})
 				}
 			}
+		case "plugin-dial-parked":
+			// the plugin dials a brokered id the host has not accepted (yet): the stream is parked in the host's
+			// broker (net/rpc) / the plugin's dial is waiting for the host's listener (gRPC kinds) when it dies
+			if bring() {
+				id := uint32(700000 + c.ID)
+				if r.hmux != nil {
+					r.inflight("plugin:mux-dial", func() error { _, err := r.cli.Do("mux-dial", "id", id, "nonce", "p", "len", 10); return err })
+				} else {
+					r.inflight("plugin:grpc-dial", func() error { _, err := r.cli.Do("grpc-dial", "id", id, "timeoutMs", 20000); return err })
+				}
+				go r.extKill(time.Duration(p.Arg) * time.Millisecond)
+			}
 		case "sync-writer-drained-after-kill":
 			if bring() {
 				r.call("pre", "Call(write)", func() error {
